@@ -247,7 +247,17 @@ def r3_fields(report, repo):
   c = cs[0]
   rec = lib.param_names(e.node)[1]
   roles = []
-  for a in c.args:
+  # positional arguments by position, keyword arguments by field name: each
+  # field must receive the value of its own role
+  given = list(c.args) + [None] * max(0, len(fields or []) - len(c.args))
+  kws = {k.arg: k.value for k in c.keywords}
+  for i, fname in enumerate(fields or []):
+    if given[i] is None and fname in kws:
+      given[i] = kws.pop(fname)
+  for a in given:
+    if a is None:
+      roles.append('?missing')
+      continue
     t = norm(a)
     if t == rec + '.levelno':
       roles.append('level')
@@ -260,13 +270,12 @@ def r3_fields(report, repo):
     elif t.replace(' ', '') in ('int(%s.created*1000)' % rec,
                                 'int(1000*%s.created)' % rec):
       roles.append('timestamp_millis')
-    elif isinstance(a, ast.Name) and any(
-        call_name(d) == 'self.format' for d in lib.resolve_local(e, a.id)):
+    elif any(call_name(d) == 'self.format' for d in lib.resolved(e, a)):
       roles.append('message')
     else:
       roles.append('?' + t)
-  for k in c.keywords:
-    roles.append('kw:' + (k.arg or ''))
+  for k in kws:
+    roles.append('kw:' + (k or ''))
   report.check(roles == fields, rule, e.qualname, 'field-order', c,
                'emit() passes %s in the order of LogRecord%s' % (roles, fields),
                'emit() constructs LogRecord with roles %s but the tuple '
